@@ -93,6 +93,19 @@ class BoundMethod:
         raise Unsupported(f"attribute .{name} of a method")
 
 
+class BoundClosure:
+    """A function object stored on a class (by `setattr(cls, name, fn)` in __init_subclass__, or `alias = method` in the class
+    body) and looked up through an instance: called with the instance as first argument."""
+
+    sa_callable = True
+
+    def __init__(self, fn, receiver):
+        self.fn, self.receiver = fn, receiver
+
+    def __call__(self, *args, **kw):
+        return self.fn(self.receiver, *args, **kw)
+
+
 class FuncRef(BoundMethod):
     def __init__(self, oe, f: FuncInfo):
         super().__init__(oe, f, None, None)
@@ -343,7 +356,7 @@ _BUILTIN_SPECS = {
     "abs": _Spec(abs, "abs"), "divmod": _Spec(divmod, "divmod"), "hex": _Spec(hex, "hex"), "round": _Spec(round, "round"),
 }
 _EXC_NAMES = {"ValueError", "TypeError", "NotImplementedError", "KeyError", "IndexError", "OverflowError", "UnicodeEncodeError", "UnicodeDecodeError", "UnicodeError", "AttributeError", "RuntimeError", "Exception", "AssertionError", "struct.error"}
-_PYTYPES = {"int": int, "float": float, "str": str, "bytes": bytes, "bytearray": bytearray, "bool": bool, "list": list, "tuple": tuple, "dict": dict, "set": set, "frozenset": frozenset, "complex": complex, "type(None)": type(None)}
+_PYTYPES = {"type": type, "object": object, "int": int, "float": float, "str": str, "bytes": bytes, "bytearray": bytearray, "bool": bool, "list": list, "tuple": tuple, "dict": dict, "set": set, "frozenset": frozenset, "complex": complex, "type(None)": type(None)}
 
 
 class ObjEval:
@@ -411,6 +424,10 @@ class ObjEval:
                 v = isub[name]
                 if v is _POISON:
                     raise Unsupported(f"{k.name}.{name} is set by an __init_subclass__ statement outside the evaluator's subset")
+                from .minieval import Closure as _Closure
+
+                if isinstance(receiver, Instance) and (isinstance(v, _Closure) or (isinstance(v, BoundMethod) and v.receiver is None)):
+                    return BoundClosure(v, receiver)  # a function stored on the class, reached through an instance
                 return v
             f = k.method(name)
             if f is not None:
@@ -419,6 +436,8 @@ class ObjEval:
                 v = self.fold_class_attr(k, name)
                 if "enum.Enum" in self.repo.mro(k) and not name.startswith("_"):
                     return ("enum-member", {"name": name, "value": v})
+                if isinstance(v, BoundMethod) and v.receiver is None and isinstance(receiver, Instance) and v.f.kind not in ("staticmethod", "classmethod"):
+                    return self.bind(v.f, receiver, v.owner or k)  # `alias = method` in the class body
                 return v
         if name in ("visit", "generic_visit") and isinstance(receiver, Instance) and "ast.NodeVisitor" in self.repo.mro(c):
             return _NodeVisitorMethod(self, receiver, name)
@@ -755,6 +774,8 @@ class OEvaluator(Evaluator):
     def free_name(self, name: str):
         if self.cls_scope is not None and name in self.cls_scope.attrs and not self.lenient_stmts:
             return self.oe.fold_class_attr(self.cls_scope, name)
+        if self.cls_scope is not None and not self.lenient_stmts and self.cls_scope.method(name) is not None and self.func_owner is None:
+            return BoundMethod(self.oe, self.cls_scope.method(name), None, self.cls_scope)  # a method named in the class body
         v = self.oe.module_global(self.module, name)
         if v is not _MISSING:
             return v
@@ -779,6 +800,23 @@ class OEvaluator(Evaluator):
             return self.getattr(v, e.attr)
         if isinstance(e, ast.Lambda):
             return _Lambda(self, e)
+        if isinstance(e, ast.Subscript):
+            base = self.ev(e.value)
+            if isinstance(base, Instance):
+                return self.oe.class_getattr(base.c, "__getitem__", base)(self._index(e.slice))
+            e = ast.copy_location(ast.Subscript(value=_Lit(base), slice=e.slice, ctx=e.ctx), e)
+        if isinstance(e, ast.Compare) and len(e.ops) == 1 and isinstance(e.ops[0], (ast.In, ast.NotIn)):
+            r = self.ev(e.comparators[0])
+            if isinstance(r, Instance):
+                l = self.ev(e.left)
+                try:
+                    res = bool(self.oe.class_getattr(r.c, "__contains__", r)(l))
+                except PyRaise:
+                    from .minieval import _as_iterable
+
+                    res = any(x is l or x == l for x in _as_iterable(r))
+                return res if isinstance(e.ops[0], ast.In) else not res
+            e = ast.copy_location(ast.Compare(left=e.left, ops=e.ops, comparators=[_Lit(r)]), e)
         if isinstance(e, ast.Call):
             r = self.call(e)
             if r is not _MISSING:
@@ -822,9 +860,11 @@ class OEvaluator(Evaluator):
             return v.sa_attr(attr)
         if isinstance(v, ast.AST):
             # a real syntax-tree node as data: plain field access (nothing of the repository runs)
-            if attr.startswith("__"):
-                raise Unsupported(f"attribute .{attr} of an ast node")
             try:
+                if attr.startswith("__") and attr not in ("__class__", "__dict__", "__doc__", "__module__"):
+                    if not hasattr(v, attr):
+                        raise AttributeError(attr)
+                    raise Unsupported(f"attribute .{attr} of an ast node")
                 return getattr(v, attr)
             except AttributeError:
                 raise PyRaise("AttributeError")
@@ -881,6 +921,9 @@ class OEvaluator(Evaluator):
                 o, a, v = self.ev(e.args[0]), self.ev(e.args[1]), self.ev(e.args[2])
                 if hasattr(o, "sa_setattr"):
                     o.sa_setattr(a, v)
+                    return None
+                if isinstance(o, ast.AST) and isinstance(a, str) and not a.startswith("__"):
+                    setattr(o, a, v)  # a field of a syntax-tree node the interpreted code built: plain data
                     return None
                 raise Unsupported("setattr on a non-object")
             if fn.id == "type" and len(e.args) == 1:
@@ -1014,6 +1057,9 @@ class OEvaluator(Evaluator):
                 if isinstance(obj, Record):
                     obj.fields[t.attr] = v
                     return
+                if isinstance(obj, ast.AST) and not t.attr.startswith("__"):
+                    setattr(obj, t.attr, v)
+                    return
                 raise Unsupported("attribute store on a non-object")
             if isinstance(t, ast.Name):
                 if t.id in self.__dict__.get("globals_declared", ()):
@@ -1050,12 +1096,24 @@ class OEvaluator(Evaluator):
                     raise Unsupported("unpacking target")
                 self.env[t.id] = x
             return
+        if isinstance(st, ast.Assign) and len(st.targets) == 1 and isinstance(st.targets[0], ast.Subscript):
+            base = self.ev(st.targets[0].value)
+            if isinstance(base, Instance):
+                self.oe.class_getattr(base.c, "__setitem__", base)(self._index(st.targets[0].slice), self.ev(st.value))
+                return
+        if isinstance(st, ast.Delete) and len(st.targets) == 1 and isinstance(st.targets[0], ast.Subscript):
+            base = self.ev(st.targets[0].value)
+            if isinstance(base, Instance):
+                self.oe.class_getattr(base.c, "__delitem__", base)(self._index(st.targets[0].slice))
+                return
         if isinstance(st, ast.Raise):
             name = "Exception"
             if st.exc is not None:
                 name = ast.unparse(st.exc.func if isinstance(st.exc, ast.Call) else st.exc)
                 if name not in _EXC_NAMES:
                     name = name.split(".")[-1]
+            if __import__("os").environ.get("SA_DEBUG_RAISE"):
+                print(f"[raise] {self.module.name}:{getattr(st, 'lineno', '?')} {ast.unparse(st)[:120]}", file=__import__("sys").stderr)
             raise PyRaise(name)
         if isinstance(st, ast.Return):
             raise ReturnValue(self.ev(st.value) if st.value is not None else None)
@@ -1103,6 +1161,8 @@ class OEvaluator(Evaluator):
                 obj.sa_setattr(st.target.attr, new)
             elif isinstance(obj, Record):
                 obj.fields[st.target.attr] = new
+            elif isinstance(obj, ast.AST) and not st.target.attr.startswith("__"):
+                setattr(obj, st.target.attr, new)
             else:
                 raise Unsupported("augmented attribute store on a non-object")
             return
